@@ -97,6 +97,8 @@ def run(ctx, spec):
             sel = [co for co, t in pairs if t is not None]   # a term function returns None for cases its stage does not apply to
             terms = [t for co, t in pairs if t is not None]
             n, mism = S.run_stage(ctx, name, terms, v_fn, shard=shard)
+            if name == "H":
+                ctx.log("stage H: the computed hypotheses of the structure-level theorems hold on %s of %d sliced structures" % (ctx.stage_counts.get("H"), n))
             ctx.log("stage %s: %d cases evaluated in Coq, %s" % (name, n, "no mismatch" if mism == [] else ("BROKEN" if mism is None else "%d cases mismatch" % len(mism))))
             if mism is None:
                 corr_broken = corr_broken or ("stage %s case file did not compile" % name, None)
@@ -130,6 +132,7 @@ def run(ctx, spec):
         "traces_validated_against_impl": validated,
         "evaluations": len(cases), "distinct_nontrivial": len(nontrivial),
         "rule": spec["rule"], "distribution": dist, "skipped": skipped,
+        "structure_theorem_hypotheses_hold_on": ctx.stage_counts.get("H"),
         "samples": [c["Text"] for c in cases[-2:]] if cases else [],
     }
     ctx.assumptions = spec.get("assumptions", [])
